@@ -304,12 +304,30 @@ NEGATIVE = [
 ]
 
 
+def _warm_up(scratch):
+    import pandas as pd
+    import pdtable
+    units = ["-", "m", "kg", "mm", "°C", "m/s", "%", "N m", "1/s", "Mm", "M", "KG", "Kg", "s", "S", "t", "T"]
+    try:
+        with warnings.catch_warnings():
+            warnings.simplefilter("ignore")
+            t = pdtable.Table(pd.DataFrame({f"c{i}": [1.5, 2.0] for i in range(len(units))}), name="warm", units=units)
+            buf = io.StringIO()
+            pdtable.write_csv(t, buf, sep=";")
+            list(pdtable.read_csv(io.StringIO(buf.getvalue()), sep=";"))
+    except Exception:  # noqa: BLE001 — the warm-up judges nothing
+        pass
+
+
 def replay(rep):
     inp = rep.get("input") or {}
     if "tables" not in inp:
         return False, "replay file has no input (no-failing-input-found): " + str(rep.get("broken"))[:300]
     scratch = tempfile.mkdtemp(prefix="pdt-c01-")
     try:
+        # a failure may need something read earlier in the same process (state left behind in the library): warm up
+        # with a bundle that carries every unit of the generator's pool, then judge the recorded bundle
+        _warm_up(scratch)
         # the bundle is rebuilt from the recorded table values; all four ways of writing and reading it are tried
         for explicit in (bool(inp.get("explicit_sep")), not inp.get("explicit_sep")):
             for path_mode in (bool(inp.get("path")), not inp.get("path")):
@@ -323,8 +341,34 @@ def replay(rep):
     return True, "property holds on this input"
 
 
+def _inside_domain(inp):
+    """is every table of the case well formed (Lean `wfCheck`, asked through the driver)?  A smaller input is only a
+    better replay if it is still an input the property speaks about."""
+    import pdtable
+    try:
+        sep = inp.get("sep", ";")
+        na = inp.get("na_rep") if inp.get("na_rep") is not None else "-"
+        ts = [wc.table_from_val(tv) for tv in inp["tables"]]
+        buf = io.StringIO()
+        with warnings.catch_warnings():
+            warnings.simplefilter("ignore")
+            pdtable.write_csv(ts, buf, sep=sep, na_rep=na)
+        rows = [l.rstrip("\n").split(sep) for l in io.StringIO(buf.getvalue())]
+        ans = common.run_model([{"op": "wf_check", "tables": inp["tables"], "sep": sep, "na_rep": na,
+                                 "ext": rc.ext_tables(rows)}])
+        return isinstance(ans[0], list) and all(ans[0])
+    except Exception:  # noqa: BLE001
+        return False
+
+
 def shrink(inp, fails, budget_s):
-    """fewer tables, then fewer columns, then fewer rows, with the same verdict"""
+    """fewer tables, then fewer columns, then fewer rows, with the same verdict — and still inside the domain"""
+    if not _inside_domain(inp):
+        return None
+    _fails = fails
+
+    def fails(c):      # noqa: F811 — the verdict must hold AND the smaller bundle must still be well formed
+        return _fails(c) and _inside_domain(c)
     base = {k: v for k, v in inp.items() if k not in ("text", "table")}
     tabs = common.ddmin(base["tables"], lambda c: fails(dict(base, tables=c)), budget_s * 0.3)
     for k in range(len(tabs)):
